@@ -3994,6 +3994,12 @@ class ProfilingDataset(Dataset):
             yield x
 
     def __getitem__(self, item):
+        if not isinstance(item, (numbers.Integral, str)):
+            # A selection (slice, list, array, e.g. the frozen copy of a
+            # ReShuffleDataset): Select from this wrapper and not from the
+            # wrapped dataset, otherwise the fetches of the selected examples
+            # bypass the hit count.
+            return super().__getitem__(item)
         start = self.timestamp()
         # Avoid context manager: https://stackoverflow.com/a/26156031/5766934
         self.hit_count[0] += 1
